@@ -10,7 +10,9 @@
 (***************************************************************************)
 EXTENDS Movie, Reader, Json, SequencesExt
 
-CONSTANTS Titles, Years, Posters, Summaries, Unknowns, Shapes, Orders
+CONSTANTS Titles, Years, Posters, Summaries, Unknowns, Shapes, Orders,
+          Hdrs,      \* which metadata boxes get 64-bit size headers: "small" | "data" | "item" | "all"
+          MMetas     \* a meta box directly in moov next to the user data: "none" | "mdtaBefore" | "mdirAfter" | "mdirBefore"
 
 Txt(n) == [i \in 1..n |-> 97 + (i % 26)]
 Bin(n) == [i \in 1..n |-> (i * 37) % 256]
@@ -37,8 +39,8 @@ SummaryV == [ absent |-> None, short |-> Some([type |-> TEXT, data |-> <<115>>])
               utf8 |-> Some([type |-> TEXT, data |-> <<195, 169, 226, 130, 172, 240, 159, 142, 172, 32, 111, 107>>]) ]
 UnkItem(i) == [cc |-> <<169, 116, 111, 111 + i>>, type |-> TEXT, data |-> <<120, 121>>]
 
-VARIABLES title, year, poster, summary, unk, shape, order, out
-vars == <<title, year, poster, summary, unk, shape, order, out, file>>
+VARIABLES title, year, poster, summary, unk, shape, order, hdr, mmeta, out
+vars == <<title, year, poster, summary, unk, shape, order, hdr, mmeta, out, file>>
 
 Known4 ==
   (IF TitleV[title].some THEN <<[cc |-> CNAM] @@ TitleV[title].v>> ELSE <<>>)
@@ -60,13 +62,23 @@ ShapeV == [ mdir |-> [present |-> "full", fullbox |-> TRUE, handler |-> MDIR],
             nometa |-> [present |-> "udta", fullbox |-> TRUE, handler |-> MDIR],
             noudta |-> [present |-> "none", fullbox |-> TRUE, handler |-> MDIR] ]
 
-TheMeta == [items |-> Items] @@ ShapeV[shape]
+HdrV == [ small |-> {}, data |-> {"data"}, item |-> {"item"}, all |-> {"data", "item", "ilst", "meta", "udta"} ]
+TheMeta == [items |-> Items, large |-> HdrV[hdr]] @@ ShapeV[shape]
+
+\* a movie-level meta box (ISO allows one in moov): another handler, or an 'mdir' one with OTHER tags.
+\* It is not the user data: the accessors keep answering from moov/udta/meta.
+OtherItems == << [cc |-> CNAM, type |-> TEXT, data |-> <<79, 84, 72, 69, 82>>], [cc |-> CDAY, type |-> TEXT, data |-> <<49, 57, 57, 57>>] >>
+MovieMeta ==
+  CASE mmeta = "none" -> <<>>
+    [] mmeta = "mdtaBefore" -> <<MetaNode([present |-> "meta", fullbox |-> TRUE, handler |-> <<109, 100, 116, 97>>, items |-> <<>>])>>
+    [] OTHER -> <<MetaNode([present |-> "full", fullbox |-> TRUE, handler |-> MDIR, items |-> OtherItems])>>
+ExtraNodes == IF mmeta = "mdirAfter" THEN UdtaNodes(TheMeta) \o MovieMeta ELSE MovieMeta \o UdtaNodes(TheMeta)
 
 Tbl1 == [ stsz |-> [size |-> 2, count |-> 1, sizes |-> <<>>], stts |-> <<[count |-> 1, delta |-> <<4>>]>>,
           ctts |-> [some |-> FALSE, entries |-> <<>>], stss |-> [some |-> FALSE, entries |-> <<>>],
           stsc |-> <<[first |-> 1, spc |-> 1, sdi |-> 1]>>, co |-> [kind |-> "stco", entries |-> <<<<>>>>] ]
 Trk == << [kind |-> "avc", timescale |-> <<3, 232>>, tbl |-> Tbl1] >>
-TheMovie == [mts |-> <<3, 232>>, tracks |-> Trk, order |-> AscOrder(Trk), extra |-> UdtaNodes(TheMeta)]
+TheMovie == [mts |-> <<3, 232>>, tracks |-> Trk, order |-> AscOrder(Trk), extra |-> ExtraNodes]
 
 \* what the accessors must return for the logical tags
 Visible == ShapeV[shape].present = "full" /\ ShapeV[shape].handler = MDIR
@@ -82,8 +94,13 @@ Logical ==
     poster |-> IF Visible /\ PosterV[poster].some THEN Some(PosterV[poster].v.data) ELSE None,
     summary |-> IF Visible /\ SummaryV[summary].some THEN Some(SummaryV[summary].v.data) ELSE None ]
 
-Init == /\ title \in Titles /\ year \in Years /\ poster \in Posters /\ summary \in Summaries
-        /\ unk \in Unknowns /\ shape \in Shapes /\ order \in Orders
+\* the full product of the C18 dimensions in the plain layout, plus a reduced product crossed with
+\* the header widths and the movie-level meta boxes
+Init == /\ \/ /\ title \in Titles /\ year \in Years /\ poster \in Posters /\ summary \in Summaries
+              /\ unk \in Unknowns /\ shape \in Shapes /\ order \in Orders /\ hdr = "small" /\ mmeta = "none"
+           \/ /\ title \in Titles /\ year \in (Years \cap {"absent", "text2008"}) /\ poster \in Posters /\ summary \in {"utf8"}
+              /\ unk \in Unknowns /\ shape \in (Shapes \cap {"mdir", "mdirqt", "noilst"}) /\ order = "fwd"
+              /\ hdr \in Hdrs /\ mmeta \in MMetas /\ (hdr # "small" \/ mmeta # "none")
         /\ RInit /\ out = [done |-> FALSE]
 ImgOf(bytes) == [start |-> <<>>, len |-> FromInt(Len(bytes)), segs |-> <<[off |-> <<>>, bytes |-> bytes]>>]
 Render == /\ ~out.done
@@ -91,7 +108,7 @@ Render == /\ ~out.done
              \E f \in {DecodeInput([img |-> ImgOf(bytes), has_init |-> FALSE])} :
                /\ Open(f)
                /\ out' = [done |-> TRUE, bytes |-> bytes, fields |-> SetToSeq(FieldMapOf(bytes))]
-          /\ UNCHANGED <<title, year, poster, summary, unk, shape, order>>
+          /\ UNCHANGED <<title, year, poster, summary, unk, shape, order, hdr, mmeta>>
 Next == Render
 Spec == Init /\ [][Next]_vars
 
@@ -100,5 +117,5 @@ MetaRoundTrip == out.done => /\ file.ok
                              /\ [title |-> file.meta.title, year |-> file.meta.year, poster |-> file.meta.poster,
                                  summary |-> file.meta.summary] = Logical
 Emit == out.done => PrintT("CASE " \o ToJson([file |-> out.bytes, fields |-> out.fields, title |-> title, year |-> year, poster |-> poster,
-                                              summary |-> summary, unk |-> unk, shape |-> shape, order |-> order]))
+                                              summary |-> summary, unk |-> unk, shape |-> shape, order |-> order, hdr |-> hdr, mmeta |-> mmeta]))
 =============================================================================
